@@ -25,8 +25,11 @@ def okCodeStr (s : String) : Bool := codeQuoted s && !quotedLike s && s != NoneS
 def okTyp (t : String) : Bool :=
   !t.toList.isEmpty && !renamedTyps.contains t && t != "dict" && !startsWith t "*" && !endsWith t googleOpt
 
-/-- `repr` of a float / complex constant that CPython reads back as one `Constant` (after an optional leading minus) -/
-def okNumRepr (r : String) : Bool := !startsWith r "(" && !startsWith (dropFirst r) "-" && !r.toList.isEmpty && r != "-"
+/-- `repr` of a float / complex constant that CPython reads back as one `Constant` (after an optional leading minus): exponent notation
+    (`1e+20`, `5e-324`), many digits, `inf` and `-0.0` included; not a complex with a real part (`(a+bj)`: a `BinOp`) and not `nan`
+    (`ast.unparse` writes it as `1e309 - 1e309`, also a `BinOp`) -/
+def okNumRepr (r : String) : Bool :=
+  !startsWith r "(" && !startsWith (dropFirst r) "-" && !r.toList.isEmpty && r != "-" && r != "nan" && r != "nanj"
 
 /-- which defaults an attribute / parameter of type `t` may carry (class, pydantic, function) -/
 def okDefault (fn : Bool) (t : String) : Default → Bool
